@@ -140,7 +140,7 @@ func boundaryCompacts() []uint32 {
 func main() {
 	r := evid.Start("C09", "exploration")
 	scr := evid.Scratch("c09")
-	defer func() { recover() }()
+
 	hx.QuietLogs(scr)
 	if r.Replay != "" {
 		replay(r)
